@@ -142,6 +142,36 @@ func (iqr *IQR) BlankCopy() *IQR {
 	return NewIQR(iqr.qid)
 }
 
+// Copy returns an IQR with the same records and columns that shares no map or
+// slice with this one, so changing one of them (discarding records, renaming,
+// deleting or filling columns) does not affect the other. The reader and the
+// individual RRCs are shared.
+func (iqr *IQR) Copy() *IQR {
+	if iqr == nil {
+		return nil
+	}
+
+	result := *iqr
+	result.rrcs = append(make([]*sutils.RecordResultContainer, 0, len(iqr.rrcs)), iqr.rrcs...)
+	result.encodingToSegKey = utils.MergeMaps(iqr.encodingToSegKey, nil)
+	result.knownValues = make(map[string][]sutils.CValueEnclosure, len(iqr.knownValues))
+	for cname, values := range iqr.knownValues {
+		result.knownValues[cname] = append(make([]sutils.CValueEnclosure, 0, len(values)), values...)
+	}
+	result.deletedColumns = utils.MergeMaps(iqr.deletedColumns, nil)
+	result.renamedColumns = utils.MergeMaps(iqr.renamedColumns, nil)
+	result.columnIndex = utils.MergeMaps(iqr.columnIndex, nil)
+	result.groupbyColumns = append(make([]string, 0, len(iqr.groupbyColumns)), iqr.groupbyColumns...)
+	result.measureColumns = append(make([]string, 0, len(iqr.measureColumns)), iqr.measureColumns...)
+	if iqr.statsResults != nil {
+		statsResults := *iqr.statsResults
+		result.statsResults = &statsResults
+	}
+	result.isDirty = true
+
+	return &result
+}
+
 func (iqr *IQR) GetQID() uint64 {
 	return iqr.qid
 }
